@@ -90,6 +90,18 @@ func c07Funcs(c *Ctx) []*ssa.Function {
 
 func c07() []*Ob {
 	return []*Ob{
+		{Prop: "C07", ID: "C07.16", Engine: "LOCK(one hold)", Floor: 1,
+			Desc:  "two searches of one token do not hide each other's batch: the queued LIDs are taken under the merge mutex (shared rule with C05.13)",
+			Check: shared("C05.13")},
+		{Prop: "C07", ID: "C07.17", Engine: "ORDER+LOCK(publish)", Floor: 2,
+			Desc:  "a request never works on a half-loaded sealed fraction (shared rule with C03.15)",
+			Check: shared("C03.15")},
+		{Prop: "C07", ID: "C07.14", Engine: "LOCK(read-modify-write)", Floor: 2,
+			Desc:  "concurrent index workers do not lose each other's update of the fraction borders (shared rule with C14.14)",
+			Check: shared("C14.14")},
+		{Prop: "C07", ID: "C07.15", Engine: "ERRCLASS(wrapped sentinel)", Floor: 1,
+			Desc:  "a bulk that races a rotation goes to the next fraction: an error variable of the repo that is returned wrapped (fmt.Errorf with %w) is never compared with == / != or switched on — the comparison cannot match the wrapped value, so 'fraction is not writable' (retry on the new writer) is taken for a final error and the bulk fails although the store is healthy",
+			Check: func(c *Ctx) { wrappedSentinelsUseErrorsIs(c) }},
 		{Prop: "C07", ID: "C07.13", Engine: "PROV(snapshot)", Floor: 1,
 			Desc:  "a search concurrent with indexing sees its snapshot only: every element of the list frac.inverseLIDs returns has been mapped by inverser.Inverse of the ids snapshot taken at the start of the search (which rejects documents indexed later) — a fast path that returns 1..N when the token's list has the snapshot's length and ends answers with documents that do not carry the token whenever late documents with the token replaced, in number, snapshot documents without it",
 			Check: func(c *Ctx) { onlySnapshotLIDs(c) }},
